@@ -406,6 +406,17 @@ class ModuleInliner:
                     if len(targets) == 1 and ast.dump(targets[0]).replace("Store()", "Load()") == ast.dump(val):
                         return []  # x = x  /  a, b = (a, b)
                     t0 = targets[0]
+                    if len(targets) == 1 and isinstance(t0, (ast.Tuple, ast.List)) and isinstance(val, ast.Call) and isinstance(val.func, ast.Name):
+                        # a, b = Rec(x=.., y=..) with Rec a NamedTuple / record class of this module: unpacking reads the fields in order
+                        cnode = next((c_ for c_ in self.tree.body if isinstance(c_, ast.ClassDef) and c_.name == val.func.id), None)
+                        if cnode is not None and not any(k_.arg is None for k_ in val.keywords) and not any(isinstance(a_, ast.Starred) for a_ in val.args):
+                            from .pyinterp import record_class
+                            rc = record_class(cnode)
+                            if rc is not None and rc.is_tuple and len(rc.fields) == len(t0.elts):
+                                given = dict(zip(rc.fields, val.args))
+                                given.update({k_.arg: k_.value for k_ in val.keywords})
+                                if all(f_ in given for f_ in rc.fields):
+                                    val = ast.copy_location(ast.Tuple(elts=[given[f_] for f_ in rc.fields], ctx=ast.Load()), val)
                     if len(targets) == 1 and isinstance(t0, (ast.Tuple, ast.List)) and isinstance(val, ast.Tuple) and len(t0.elts) == len(val.elts) \
                             and all(isinstance(e, ast.Name) for e in t0.elts):
                         # a, b = (x, y)  ->  a = x; b = y   when no later element reads an earlier target
